@@ -637,7 +637,8 @@ def opcodes(R):
 def closecodes(R):
     sc = class_consts(R, 'status.Status')
     inv = sc.get('invalid_codes')
-    need(isinstance(inv, set), 'Status.invalid_codes is not a constant set')
+    need(isinstance(inv, (set, frozenset)), 'Status.invalid_codes is not a constant set')
+    inv = set(inv)
     must = set(range(1000)) | {1004, 1005, 1006, 1015}
     missing = sorted(must - inv)
     R.ob('C04.closecodes', 'reserved codes rejected', not missing, 'not rejected: %s' % missing[:8],
